@@ -105,6 +105,24 @@ def _init():
 
 def _history(mods, item):
     key, text, opts = item
+    opts = dict(opts)
+    tree = opts.pop("__tree__", None)
+    if tree is None:
+        return _history_in_place(mods, key, text, opts)
+    # the text is formatted next to the modules it imports from (they are found through the working directory)
+    import os
+    tmp = os.path.realpath(tempfile.mkdtemp(prefix="verif-c09t-"))
+    try:
+        for name, content in tree.items():
+            Path(tmp, name).write_text(content)
+        os.chdir(tmp)
+        return _history_in_place(mods, key, text, opts)
+    finally:
+        os.chdir("/")
+        shutil.rmtree(tmp, ignore_errors=True)
+
+
+def _history_in_place(mods, key, text, opts):
     main = mods["main"]
     hist = [text]
     cur = text
@@ -146,6 +164,17 @@ def histories(rep: Report, t: str, rng: random.Random):
         items.append((f"stress:nested-else:{n}", nested, {}))
         calls = "import os\nx = " + "list(" * n + "sorted(" + "set(" + "os.listdir('.')" + ")" * (n + 2) + "\nprint(len(x) >= 0)\n"
         items.append((f"stress:nested-casts:{n}", calls, {}))
+    # one rule that rewrites ONE place per internal pass: the inner loops of format_code have to keep going (their budget is
+    # far larger than the number of applications a caller may need)
+    for n in (8, 12):
+        swaps = "".join(f"def pick{i}(v):\n    if v > {i}:\n        print(v)\n        print(v + 1)\n        print(v + 2)\n        return v * {i + 2}\n"
+                        f"    return None\n\n\n" for i in range(n)) + "".join(f"print(pick{i}(3))\n" for i in range(n))
+        items.append((f"stress:many-swaps:{n}", swaps, {}))
+    # a name handed down through a stack of re-exporting modules: the chain of single-run rules follows one hop per iteration
+    for n in (3, 8):
+        tree = {f"layer{k}.py": f"from layer{k + 1} import compute\n" for k in range(1, n)}
+        tree[f"layer{n}.py"] = "def compute(a, b):\n    return a + b\n"
+        items.append((f"stress:reexport-layers:{n}", "from layer1 import compute\n\nprint(compute(20, 22))\n", {"__tree__": tree}))
     std = list(corpus.stdlib_files(max_lines=150 if t == "quick" else 400))
     for origin, text in rng.sample(std, min(12 if t == "quick" else 150, len(std))):
         items.append((origin, text, {"safe": True}))
@@ -158,17 +187,29 @@ def histories(rep: Report, t: str, rng: random.Random):
     return out
 
 
-def module_passes(rep: Report, mods, rng: random.Random, t: str):
+def module_passes(rep: Report, mods, rng: random.Random, t: str, histories_=()):
     """format_files(max_passes=5) on temp trees: converged within the budget, a further pass changes nothing."""
     main = mods["main"]
     snippets = [s for _, s in corpus.repo_snippets()]
     hs = []
-    for k in range(4 if t == "quick" else 30):
+    # directed trees: the file that sorts FIRST needs several passes, the file that sorts LAST is settled already (and the
+    # other way round): the per-folder bookkeeping has to look at every file of the folder
+    slow = [h[0] for (k, _, o), (_, h, e) in histories_ if not o and e is None and len(h) > 3 and h[1] != h[2] and k.startswith("snippet:")]
+    settled = [h[-1] for (k, _, o), (_, h, e) in histories_ if not o and e is None and len(h) > 3 and h[-1] == h[-2] and h[-1].strip()
+               and k.startswith("snippet:")]
+    directed = []
+    for text in slow[: (6 if t == "quick" else 60)]:
+        if settled:
+            directed.append({"a_first.py": text, "z_last.py": rng.choice(settled)})
+            directed.append({"a_first.py": rng.choice(settled), "z_last.py": text})
+    rep.coverage["module_pass_directed_trees"] = len(directed)
+    trees = [dict((f"m{j}.py", text) for j, text in enumerate(rng.sample(snippets, 5))) for _ in range(4 if t == "quick" else 30)]
+    for k, tree in enumerate(directed + trees):
         tmp = tempfile.mkdtemp(prefix="verif-c09-")
         try:
             files = []
-            for j, text in enumerate(rng.sample(snippets, 5)):
-                p = Path(tmp) / f"m{j}.py"
+            for j, text in tree.items():
+                p = Path(tmp) / j
                 p.write_text(text)
                 files.append(p)
             try:
@@ -179,7 +220,7 @@ def module_passes(rep: Report, mods, rng: random.Random, t: str):
             except Exception as exc:  # C04 / C06
                 continue
             for j, (a, b) in enumerate(zip(after5, after6)):
-                hs.append({"id": f"tree{k}/m{j}", "final": a, "again": b})
+                hs.append({"id": f"tree{k}/{files[j].name}", "final": a, "again": b})
         finally:
             shutil.rmtree(tmp, ignore_errors=True)
     return hs
@@ -203,7 +244,8 @@ def main(argv=None) -> int:
         by_id[i] = (key, opts, hist)
     # the cycle / fixpoint detection inside one run: loop clauses of PipelineTrace.tla on recorded runs
     import pipecheck
-    sample_items = [(k, txt, o) for (k, txt, o), _ in hs[:: max(1, len(hs) // (250 if t == "quick" else 2000))]]
+    sample_items = [(k, txt, o) for (k, txt, o), _ in hs[:: max(1, len(hs) // (250 if t == "quick" else 2000))] if "__tree__" not in o]
+    sample_items += [(k, txt, o) for (k, txt, o), _ in hs if k.startswith("stress:") and "__tree__" not in o and (k, txt, o) not in sample_items]
     runs = pipecheck.run_and_validate(rep, sample_items, label="C09 loop clauses", timeout=120)
     for r in runs:
         bad = {c: p for c, p in r.verdict["bad"].items() if c in ("ExitOnRepeat", "LoopExitUnjustified", "Budget")}
@@ -212,7 +254,7 @@ def main(argv=None) -> int:
                           f"text or when the budget is used up); input {r.key}",
                           {"input_id": r.key, "source": r.source, "clauses": bad,
                            "events": [(e["k"], e["s"], e["n"]) for e in r.trace["ev"]][:60]})
-    trees = module_passes(rep, mods, rng, t)
+    trees = module_passes(rep, mods, rng, t, hs)
     base = len(hs) + 1
     for j, h in enumerate(trees):
         # after max_passes=5 the module must be settled: one more pass is the identity
